@@ -170,7 +170,7 @@ def verify_contract(reg, c, timeout_ms=None, seed=0, collect_paths=False):
                 else:
                     env[nm] = fresh_typed(E, st, t, nm)
                     if len(split_union(ptypes[nm])) > 1:
-                        desc.append('%s:%s' % (nm, t if isinstance(t, str) else repr(t[1])))
+                        desc.append('%s:%s' % (nm, t if isinstance(t, str) else (t[2] if len(t) > 2 else repr(t[1]))))
             # object invariants of parameters + requires
             for nm in pnames:
                 if isinstance(env[nm], Ref) and c.options.get('assume_valid', True):
@@ -210,7 +210,8 @@ def verify_contract(reg, c, timeout_ms=None, seed=0, collect_paths=False):
             results.append(Result(short + '.vacuity', 'vacuity', 'precondition satisfiable', 'undecided', detail=info['reason']))
         elif not results:
             info['status'] = 'error'
-            info['reason'] = 'no obligation generated'
+            info['reason'] = 'no obligation generated (vacuous contract or no terminal path)'
+            results.append(Result(short + '.vacuity', 'vacuity', 'at least one obligation is generated', 'undecided', detail=info['reason']))
     info['entry_states'] = n_sat_entry
     info['seconds'] = time.time() - t_start
     info['engine_stats'] = dict(E.stats)
@@ -324,7 +325,9 @@ def _frame_obligations(E, c, st, entry_oid, add, kind):
             base, fld = path.rsplit('.', 1)
             import ast as _ast
             sink = []
-            r = list(E.ev(_ast.parse(base, mode='eval').body, snap.fork(), sink))
+            s0 = snap.fork()
+            s0.frame.spec_mode = True          # the base of a frame path is a spec expression (spec forms allowed)
+            r = list(E.ev(_ast.parse(base, mode='eval').body, s0, sink))
             if len(r) == 1 and isinstance(r[0][1], Ref):
                 allowed.add((r[0][1].oid, fld))
                 if fld == '*':
